@@ -492,7 +492,7 @@ pub fn start_watchdog(property: &str, verif_dir: &str, max_secs: u64, max_bytes:
     std::thread::spawn(move || loop {
         std::thread::sleep(std::time::Duration::from_millis(250));
         let now = now_ms();
-        let live = crate::alloc::PROCESS_LIVE.load(std::sync::atomic::Ordering::Relaxed);
+        let live = crate::alloc::process_live();
         let mut culprit: Option<(usize, &str)> = None;
         for (i, st) in WATCH_START.iter().enumerate() {
             let t = st.load(AO::Relaxed);
